@@ -138,7 +138,7 @@ defvjp(
 defvjp(
     anp.power,
     lambda ans, x, y: unbroadcast_f(x, lambda g: g * y * x ** anp.where(y, y - 1, 1.0)),
-    lambda ans, x, y: unbroadcast_f(y, lambda g: g * anp.log(replace_zero(x, 1.0)) * ans),
+    lambda ans, x, y: unbroadcast_f(y, lambda g: g * log_of_base(x, ans) * ans),
 )
 defvjp(
     anp.arctan2,
@@ -188,6 +188,13 @@ defvjp(
     anp.sinc,
     lambda ans, x: lambda g: g * (anp.cos(anp.pi * x) * anp.pi * x - anp.sin(anp.pi * x)) / (anp.pi * x**2),
 )
+
+
+def log_of_base(x, ans):
+    # d/dy x**y = log(x) x**y. With a complex exponent the power is complex also for a real base, and for a negative real
+    # base the logarithm is then the complex one (log|x| + i pi), not nan.
+    x = replace_zero(x, 1.0)
+    return anp.log(x + 0j) if anp.iscomplexobj(ans) else anp.log(x)
 
 
 def is_discrete(ans):
